@@ -117,11 +117,19 @@ fn packet_site() -> Site {
             }
         }
     }
-    let vals = std::sync::Arc::new(short_read_values());
+    let vals = std::sync::Arc::new({
+        let mut v = short_read_values();
+        // every four-byte string over 12 byte classes (NUL, 01, digits, letters of both cases, a hex-ish letter, underscore,
+        // 80, ff): interior NULs, names cut short, ids that start like names
+        const A: [u8; 12] = [0, 1, b'0', b'9', b'A', b'Z', b'a', b'z', 0x6f, b'_', 0x80, 0xff];
+        for a in A { for b in A { for c in A { for d in A { v.push(u32::from_le_bytes([a, b, c, d])); } } } }
+        v.sort(); v.dedup();
+        v
+    });
     let targets = std::sync::Arc::new(targets);
     let n = (targets.len() * vals.len()) as u64;
     Site::new("in-packets", n,
-        "every packet field that carries a car name (NPL, RES, SLC; both modes; also with each text field of the packet holding one of 6 skin-like / mod-like names) x every built-in name, near-names and mod ids: the packet decodes iff the four bytes decode on their own, and re-encodes to the same frame",
+        "every packet field that carries a car name (NPL, RES, SLC; both modes; also with each text field of the packet holding one of 6 skin-like / mod-like names) x every built-in name, near-names, mod ids and every four-byte string over 12 byte classes (20 736): the packet decodes iff the four bytes decode on their own, and re-encodes to the same frame",
         move |i, acc| {
             acc.eval();
             let (name, compressed, frame, off) = &targets[(i as usize) / vals.len()];
